@@ -166,6 +166,11 @@ theorem struct_layout_canonical_partial :
         equals (structOf p [structOf kvs]) (structOf kvs [structOf kvs.reverse])) = true := by
   decide +kernel
 
+/-- same kind of kernel-checked test on a six-key probe cluster with eviction (all 720 insertion orders) -/
+theorem struct_layout_canonical_partial_cluster :
+    ((permsOf clusterFamily).all fun p => equals (structOf p) (structOf clusterFamily)) = true := by
+  decide +kernel
+
 /-! ### non-vacuity: the executable doubles are lawful, and the statements speak about non-trivial values -/
 
 example : LawfulNum F64 := inferInstance
